@@ -2,6 +2,7 @@
 # tools/check_seeded.sh [dir…] — regression over the kept seeded changes: each patch is applied to /repo,
 # the property's quick check must report a violation (exit 1), and /repo is restored straight afterwards.
 cd /verif
+export GUCHECK_EVIDENCE_DIR=$(mktemp -d /tmp/seeded-evidence.XXXXXX)
 dirs="$@"; [ -z "$dirs" ] && dirs=$(ls -d seeded/*/)
 fail=0
 for d in $dirs; do
@@ -12,4 +13,5 @@ for d in $dirs; do
   git -C /repo checkout -- .
   if [ $code -eq 1 ]; then echo "caught  $d ($(grep -c '^VIOLATION' /tmp/check_seeded.out) violation(s): $(grep -o '\[C[0-9][0-9]/[^]]*\]' /tmp/check_seeded.out | head -2 | tr '\n' ' '))"; else echo "MISSED  $d (exit $code)"; fail=1; fi
 done
+rm -rf "$GUCHECK_EVIDENCE_DIR"
 exit $fail
